@@ -7,6 +7,7 @@
 package c14
 
 import (
+	"sync/atomic"
 	"bytes"
 	"fmt"
 	"io"
@@ -81,6 +82,7 @@ type Case struct {
 	// them), then the station dials again and the second session's Read must yield exactly the second
 	// session's payloads.
 	SlowWriteUS    int  `json:"slow_write_us,omitempty"` // serial: duration of every host write call
+	PTTKeyUS       int  `json:"ptt_key_us,omitempty"`    // the PTT controller needs that long to key the transmitter
 	Second         bool `json:"second,omitempty"`
 	LateARQ        int  `json:"late_arq,omitempty"`
 	NoDisconnected bool `json:"no_disconnected,omitempty"`
@@ -128,12 +130,26 @@ func content(seed uint64, n int) []byte {
 type pttRec struct {
 	mu  sync.Mutex
 	seq []bool
+	// keyTime: how long the rig control takes to key the transmitter (SetPTT(true)); a request counts when it
+	// has taken effect, i.e. when SetPTT returns
+	keyTime time.Duration
+	busy    int32
+	overlap bool
 }
 
 func (p *pttRec) SetPTT(on bool) error {
+	if atomic.AddInt32(&p.busy, 1) > 1 {
+		p.mu.Lock()
+		p.overlap = true
+		p.mu.Unlock()
+	}
+	if on && p.keyTime > 0 {
+		time.Sleep(p.keyTime)
+	}
 	p.mu.Lock()
 	p.seq = append(p.seq, on)
 	p.mu.Unlock()
+	atomic.AddInt32(&p.busy, -1)
 	return nil
 }
 func (p *pttRec) get() []bool { p.mu.Lock(); defer p.mu.Unlock(); return append([]bool(nil), p.seq...) }
@@ -295,7 +311,7 @@ func (r *runner) open() bool {
 		return false
 	}
 	r.st.opened = true
-	r.ptt = &pttRec{}
+	r.ptt = &pttRec{keyTime: time.Duration(c.PTTKeyUS) * time.Microsecond}
 	r.tnc.SetPTT(r.ptt)
 	return true
 }
@@ -933,7 +949,7 @@ func (r *runner) teardown() {
 			// TNC.Close waited for the LISTEN echo, which the TNC sent after every event: all PTT requests were dispatched
 			got := r.ptt.get()
 			if fmt.Sprint(got) != fmt.Sprint(r.pttSent) {
-				r.fail("ptt-sequence", "PTT controller saw %v, the TNC requested %v", got, r.pttSent)
+				r.fail("ptt-sequence", "PTT controller saw %v (in the order in which the requests took effect; keying takes %d us), the TNC requested %v", got, r.c.PTTKeyUS, r.pttSent)
 			}
 			r.checkHostFrames()
 		}
